@@ -147,6 +147,32 @@ Theorem C24_multi_keeps_suppressions pm k bn bf fs n f seen sr :
 Proof. intros H H1 H2 H3. exact (proj1 (multi_files_spec pm k bn bf fs n f seen sr H H1 H2 H3)). Qed.
 Print Assumptions C24_multi_keeps_suppressions.
 
+(* executor independence (after fix 524f0f5), thread executor, by proof: for every
+   suppression list (pairwise different parameters, macro suppressions file-local as the
+   preprocessor creates them), every set of files and findings (a rendered text identifies
+   its finding within a file, texts not empty) the thread executor ends with exactly the
+   flags of the single executor and emits exactly the same unmatchedSuppression findings.
+   (Process executor: by correspondence, see docs/C24.md.) *)
+Theorem C24_thread_equals_single pm cfg n f fs wp o1 o2 :
+  whole_run pm None cfg n f fs wp = Some o1 ->
+  whole_run pm (Some EThread) cfg n f fs wp = Some o2 ->
+  uniq n = true -> Forall (inline_present n) fs ->
+  Forall (fun x => texts_ok (f_msgs x)) fs -> Forall macro_local n ->
+  o_nomsg o2 = o_nomsg o1 /\ o_unmatched o2 = o_unmatched o1.
+Proof. exact (thread_equals_single pm cfg n f fs wp o1 o2). Qed.
+Print Assumptions C24_thread_equals_single.
+
+(* the input on which the executors disagreed before the fix (--suppress=nullPointer
+   --suppress=nullPointer:a.c, one nullPointer finding in a.c): all three agree now *)
+Theorem C24_former_witness_agrees :
+  exists o1 o2,
+    whole_run pm_eq None w24_cfg w24_nomsg [] w24_files [] = Some o1
+    /\ whole_run pm_eq (Some EThread) w24_cfg w24_nomsg [] w24_files [] = Some o2
+    /\ whole_run pm_eq (Some EProcess) w24_cfg w24_nomsg [] w24_files [] = Some o2
+    /\ o_unmatched o1 = [] /\ o_unmatched o2 = [].
+Proof. exact witness_executors_agree. Qed.
+Print Assumptions C24_former_witness_agrees.
+
 (* premises are inhabited *)
 Example C24_ex_inline_present : Forall (inline_present w24_nomsg) w24_files.
 Proof. repeat constructor. Qed.
@@ -154,6 +180,14 @@ Example C24_ex_run : exists o, whole_run pm_eq None w24_cfg w24_nomsg [] w24_fil
 Proof. eexists. vm_compute. reflexivity. Qed.
 Example C24_ex_reported : exists o s, whole_run pm_eq None w25_cfg w25_nomsg w25_nofail w25_files [] = Some o /\ In s (o_unmatched o).
 Proof. eexists. eexists. vm_compute. split; [reflexivity|left; reflexivity]. Qed.
+Example C24_ex_texts_ok : Forall (fun x => texts_ok (f_msgs x)) w24_files.
+Proof.
+  repeat constructor; cbn.
+  - intros m [<-|[]]. reflexivity.
+  - intros e1 t1 e2 t2 [H1|[]] [H2|[]] _. congruence.
+Qed.
+Example C24_ex_macro_local : Forall macro_local w24_nomsg.
+Proof. repeat constructor; intros H; discriminate H. Qed.
 Example C24_ex_uniq : uniq w24_nomsg = true.
 Proof. reflexivity. Qed.
 Example C24_ex_thread : exists sr, multi_files pm_eq EThread w24_nomsg [] w24_nomsg [] [] w24_files = Some sr.
